@@ -234,30 +234,29 @@ fn mark_csr_segment_pages(
     meta_page_id: PageId,
     reachable: &mut BTreeSet<PageId>,
 ) -> Result<()> {
-    const META_MAGIC: [u8; 8] = *b"NDBCSRv1";
+    // Layout of the segment meta page as written by `csr.rs` (format v2): four page lists
+    // (outgoing offsets, outgoing edges, incoming offsets, incoming edges) after an 80-byte header.
+    const META_MAGIC: [u8; 8] = *b"NDBCSRv2";
+    const HEADER_LEN: usize = 80;
 
     let meta = pager.read_page(meta_page_id)?;
     if meta[0..8] != META_MAGIC {
         return Err(Error::WalProtocol("invalid csr meta magic"));
     }
 
-    let offsets_page_count = u32::from_le_bytes(meta[40..44].try_into().unwrap()) as usize;
-    let edges_page_count = u32::from_le_bytes(meta[44..48].try_into().unwrap()) as usize;
+    let mut page_count = 0usize;
+    for field in 0..4 {
+        let at = 64 + field * 4;
+        page_count += u32::from_le_bytes(meta[at..at + 4].try_into().unwrap()) as usize;
+    }
 
-    let needed = 48usize + (offsets_page_count + edges_page_count) * 8;
+    let needed = HEADER_LEN + page_count * 8;
     if needed > PAGE_SIZE {
         return Err(Error::WalProtocol("csr meta page overflow"));
     }
 
-    let mut off = 48usize;
-    for _ in 0..offsets_page_count {
-        let id = u64::from_le_bytes(meta[off..off + 8].try_into().unwrap());
-        off += 8;
-        if id != 0 {
-            reachable.insert(PageId::new(id));
-        }
-    }
-    for _ in 0..edges_page_count {
+    let mut off = HEADER_LEN;
+    for _ in 0..page_count {
         let id = u64::from_le_bytes(meta[off..off + 8].try_into().unwrap());
         off += 8;
         if id != 0 {
